@@ -22,7 +22,7 @@ func (e *Engine) checkImmutables(fnIndex map[string]*ssa.Function) {
 	for _, k := range keys {
 		ts := e.db.Types[k]
 		for _, g := range ts.Guards {
-			if g.Lock != "immutable" {
+			if g.Lock != "immutable" && g.Lock != "stable" {
 				continue
 			}
 			// find the named type
@@ -49,6 +49,10 @@ func (e *Engine) checkImmutables(fnIndex map[string]*ssa.Function) {
 			}
 			name := fmt.Sprintf("%s/%s.%s/immutable#%s", e.prop, shortPkg(ts.Pkg), ts.Name, g.Field)
 			ob := &Obligation{Name: name, Func: shortPkg(ts.Pkg) + "." + ts.Name, Kind: "immutable", Desc: "field " + g.Field + " is only stored to in the function that allocates the object"}
+			if g.Lock == "stable" {
+				ob.Desc = "field " + g.Field + " is stored to only by its own package"
+				e.stableFields = append(e.stableFields, ts.Pkg+"."+ts.Name+"."+g.Field)
+			}
 			if idx < 0 {
 				ob.VCs = []*VC{{Goal: False, From: "syntactic"}}
 				ob.Desc = "immutable field " + g.Field + " does not exist (contract-target-missing)"
@@ -56,10 +60,18 @@ func (e *Engine) checkImmutables(fnIndex map[string]*ssa.Function) {
 				hn, ft := heapKeyStruct(named, []int{idx})
 				for _, l := range layout(ft) {
 					e.immutableHeap[hn+l.Suffix] = true
+					stableHeapNames[hn+l.Suffix] = true
 				}
 				var bad []string
 				for key, fn := range fnIndex {
-					if !strings.HasPrefix(key, ts.Pkg+".") {
+					inPkg := strings.HasPrefix(key, ts.Pkg+".") && !strings.Contains(strings.TrimPrefix(key, ts.Pkg+"."), "/")
+					if g.Lock == "stable" {
+						// stable: only the declaring package writes the field (callbacks and other
+						// packages are assumed not to re-enter the writers; listed as assumption)
+						if inPkg {
+							continue
+						}
+					} else if !inPkg {
 						continue
 					}
 					bad = append(bad, immutableViolations(fn, named, idx)...)
